@@ -4,7 +4,7 @@
    h5py; view_norm: DataView._transform_coordinates.  `corr a np view`: both refuse, or the
    view's selection is NumPy's selection in window coordinates shifted by the window start a. *)
 From Coq Require Import ZArith List.
-From NixV Require Import Base.Prelude Pure.Slices Pure.SlicesCheck Proofs.SlicesProofs.
+From NixV Require Import Base.Prelude Pure.Slices Pure.SlicesCheck Proofs.SlicesProofs Proofs.SlicesProofs2.
 Import ListNotations.
 Open Scope Z_scope.
 
@@ -33,3 +33,24 @@ Theorem c06_view_is_numpy_on_window : forall w e ex,
   end.
 Proof. exact view_is_numpy_on_window. Qed.
 Print Assumptions c06_view_is_numpy_on_window.
+
+(* the safety clause by itself, with NO hypothesis on the index expression (any length, any
+   ellipses, any integers): whatever a view accepts, every element addressed on every axis lies
+   inside the window of that axis - a read returns and an assignment changes no other element *)
+Theorem c06_axis_inside_window : forall a z i s, 0 <= a <= z ->
+  view_axis (a, z) i = inl s -> forall x, In x (sel_indices s) -> a <= x < z.
+Proof. exact view_axis_inside. Qed.
+Print Assumptions c06_axis_inside_window.
+
+Theorem c06_never_outside_window : forall w e sels, wf_window w -> view_norm w e = inl sels ->
+  Forall2 inside (firstn (length sels) w) sels.
+Proof. exact view_never_outside_window. Qed.
+Print Assumptions c06_never_outside_window.
+
+(* not vacuous: a window 2..5 of an axis accepts [:-1] and addresses 2, 3 (and nothing below 2,
+   which is where a stop that is not clamped would wrap to) *)
+Example c06_inside_example :
+  view_norm [(2, 5)] [ISlice None (Some (-1)) None] = inl [ARange 2 4 1] /\
+  sel_indices (ARange 2 4 1) = [2; 3] /\
+  view_norm [(2, 5)] [ISlice None (Some (-7)) None] = inl [ARange 2 2 1] /\ sel_indices (ARange 2 2 1) = [].
+Proof. repeat split; vm_compute; reflexivity. Qed.
